@@ -22,3 +22,6 @@ Props/MapProps.vos Props/MapProps.vok Props/MapProps.required_vos: Props/MapProp
 Props/ColorProps.vo Props/ColorProps.glob Props/ColorProps.v.beautified Props/ColorProps.required_vo: Props/ColorProps.v Lib/U63Ops.vo Lib/Sweep.vo
 Props/ColorProps.vio: Props/ColorProps.v Lib/U63Ops.vio Lib/Sweep.vio
 Props/ColorProps.vos Props/ColorProps.vok Props/ColorProps.required_vos: Props/ColorProps.v Lib/U63Ops.vos Lib/Sweep.vos
+Props/Sched.vo Props/Sched.glob Props/Sched.v.beautified Props/Sched.required_vo: Props/Sched.v 
+Props/Sched.vio: Props/Sched.v 
+Props/Sched.vos Props/Sched.vok Props/Sched.required_vos: Props/Sched.v 
